@@ -384,6 +384,8 @@ class StringRewriter(object):
             return 'vstr_push(&%s, %s);' % (var, e)
         if p in self.sv:
             return 'vstr_append(&%s, &%s);' % (var, p)
+        if re.match(r'^(vstr_substr|vstr_lit|json_escape|json_unescape)\(', e):
+            return '{ vstr t_ = %s; vstr_append(&%s, &t_); }' % (e, var)
         raise ExtractionError('unsupported append operand: ' + p)
 
 
